@@ -136,6 +136,11 @@ func Encode(data []byte, minECCPercent int, userSpecifiedLayers int) (barcode.Ba
 // Encode returns an aztec barcode with the given content and color scheme
 func EncodeWithColor(data []byte, minECCPercent int, userSpecifiedLayers int, color barcode.ColorScheme) (barcode.Barcode, error) {
 	bits := highlevelEncode(data)
+	if maxBits := totalBitsInLayer(max_nb_bits, false); bits.Len() > 0 && minECCPercent/100 > maxBits/bits.Len()+1 {
+		// more check bits than the largest symbol has; rejecting here also keeps the
+		// product below from overflowing
+		return nil, fmt.Errorf("Data too large for an aztec code")
+	}
 	eccBits := ((bits.Len() * minECCPercent) / 100) + 11
 	totalSizeBits := bits.Len() + eccBits
 	var layers, TotalBitsInLayer, wordSize int
